@@ -46,9 +46,39 @@ def run_one(patch, expect_fail):
     shutil.rmtree(tmp, ignore_errors=True)
 
 
+def run_seed(d):
+  """seeded/<name>/: patch.diff (paths relative to the repository root) + meta.json {property}; the
+  property's check must exit 1 with a VIOLATION line"""
+  import json
+  meta = json.load(open(os.path.join(d, 'meta.json')))
+  prop = meta['property']
+  tmp = tempfile.mkdtemp(prefix='pyvc_seed_')
+  try:
+    shutil.copytree('/repo/lib', os.path.join(tmp, 'lib'))
+    p = subprocess.run(['patch', '-p1', '-s', '-d', tmp, '-i', os.path.join(d, 'patch.diff')], capture_output=True, text=True)
+    if p.returncode != 0:
+      return False, "patch does not apply: " + p.stdout + p.stderr
+    env = dict(os.environ, PYVC_REPO=tmp)
+    r = subprocess.run([os.path.join(VERIF, 'check'), prop], capture_output=True, text=True, env=env, cwd=VERIF)
+    out = r.stdout + r.stderr
+    ref = [l.split(': ', 1)[1] for l in out.splitlines() if l.startswith('refuted obligation')]
+    nofail = sum(1 for l in out.splitlines() if l.startswith('VIOLATION') and l.rstrip().endswith('no-failing-input-found'))
+    nviol = sum(1 for l in out.splitlines() if l.startswith('VIOLATION'))
+    return r.returncode == 1 and nviol > 0, "%s exit=%d refuted=%s (%d of %d without a failing input)" % (prop, r.returncode, sorted(set(ref)), nofail, nviol)
+  finally:
+    shutil.rmtree(tmp, ignore_errors=True)
+
+
 def main():
   sel = sys.argv[1:]
   bad = 0
+  for d in sorted(glob.glob(os.path.join(VERIF, 'seeded', '*'))):
+    if sel and not any(s in d for s in sel):
+      continue
+    ok, msg = run_seed(d)
+    print("%s %-9s %-45s %s" % ('ok  ' if ok else 'FAIL', 'seeded', os.path.basename(d), msg))
+    if not ok:
+      bad += 1
   for kind, expect_fail in (('mutants', True), ('harmless', False)):
     for patch in sorted(glob.glob(os.path.join(HERE, kind, '*.patch'))):
       if sel and not any(s in patch for s in sel):
